@@ -209,8 +209,15 @@ Fixpoint write_absorbingb (prev : job) (obs : list oobs) : bool :=
   | o :: t => wabsb (phase prev) (o_effs o) && write_absorbingb (o_job o) t
   end.
 
+(* ---- clause 12: what is handed to the evictor is the target pod as it is in the API at that
+   instant (same UID as the pod the stamp was read from), in either mode ---- *)
+Definition evict_target (obs : list oobs) : Prop :=
+  forall o e, In o obs -> In e (o_effs o) -> is_evict e = true -> eph e = st_puid (est e).
+Definition evict_targetb (obs : list oobs) : bool :=
+  forallb (fun o => forallb (fun e => negb (is_evict e) || (eph e =? st_puid (est e))) (o_effs o)) obs.
+
 (* ---- the property ---- *)
-(* clauses 1-7, 10, 11 *)
+(* clauses 1-7, 10, 11, 12 *)
 Definition C17_core (j0 : job) (ops : list op) (obs : list oobs) : Prop :=
   length obs = length ops
   /\ evict_guard j0 obs
@@ -220,7 +227,8 @@ Definition C17_core (j0 : job) (ops : list op) (obs : list oobs) : Prop :=
   /\ frame j0 ops obs
   /\ evict_other_node j0 obs
   /\ (direct j0 = false -> evict_unbound false ops obs)
-  /\ write_absorbing j0 obs.
+  /\ write_absorbing j0 obs
+  /\ evict_target obs.
 
 Definition C17_holds (j0 : job) (ops : list op) (obs : list oobs) : Prop :=
   C17_core j0 ops obs /\ timeout_cleans false j0 ops obs.
@@ -235,6 +243,7 @@ Definition prop_code (j0 : job) (ops : list op) (obs : list oobs) : Z :=
   else if negb (evict_other_nodeb j0 obs) then 7
   else if negb (direct j0 || evict_unboundb false ops obs) then 10
   else if negb (write_absorbingb j0 obs) then 11
+  else if negb (evict_targetb obs) then 12
   else if negb (timeout_cleansb false j0 ops obs) then 8
   else 0.
 
